@@ -56,9 +56,9 @@ APIS = ["text", "pages", "fp_text", "fp_xml"]
 def minimums(tier: str) -> Dict[str, int]:
     if tier == "quick":
         return {"evaluations": 4000, "distinct": 150, "calls_compared": 4000, "fingerprint_checks": 4000, "interleaved_pages": 300,
-                "seen:docs_used": 20, "page_at_a_time_calls": 300, "caching_off_calls": 800}
+                "seen:docs_used": 21, "page_at_a_time_calls": 300, "caching_off_calls": 800}
     return {"evaluations": 120000, "distinct": 4000, "calls_compared": 120000, "fingerprint_checks": 120000, "interleaved_pages": 20000,
-            "seen:docs_used": 20, "page_at_a_time_calls": 9000, "caching_off_calls": 25000}
+            "seen:docs_used": 21, "page_at_a_time_calls": 9000, "caching_off_calls": 25000}
 
 
 # --------------------------------------------------------------------------
@@ -132,6 +132,24 @@ def build_pool() -> List[Dict[str, Any]]:
     add("graphics", build(d, o), "misc")
     d, o = seed_xrefstm()
     add("xrefstm", build(d, o), "misc")
+    # many text boxes at pairwise EQUAL distances: hierarchical grouping has to break ties
+    gdoc = Doc()
+    gf = gdoc.add(font_widths(name="Grid", first=32, widths=[500] * 95, subtype="TrueType", encoding=N("WinAnsiEncoding")))
+    gpages = []
+    for variant in range(2):
+        ops = []
+        for i in range(5):
+            for j in range(5):
+                if variant == 1 and (i + j) % 3 == 0:
+                    continue
+                ops.append(b"BT /F1 8 Tf 1 0 0 1 %d %d Tm (w%d%d) Tj ET" % (20 + 50 * i, 260 - 50 * j, i, j))
+        gpages.append(gdoc.add(Stream({}, b"\n".join(ops))))
+    gcat, gpg = gdoc.alloc(), gdoc.alloc()
+    gkids = [gdoc.add({"Type": N("Page"), "Parent": gpg, "MediaBox": [0, 0, 300, 300], "Resources": {"Font": {"F1": gf}}, "Contents": c}) for c in gpages]
+    gdoc.set(gpg, {"Type": N("Pages"), "Kids": gkids, "Count": len(gkids)})
+    gdoc.set(gcat, {"Type": N("Catalog"), "Pages": gpg})
+    gdoc.trailer["Root"] = gcat
+    add("grid-ties", gdoc.build(), "misc")
     # encrypted twins of plain-WinAnsiEncoding (same text, same object numbers)
     tw = _simple_doc(dict(helv, Encoding=N("WinAnsiEncoding")), t2)
     enc = StdEncryptor(2, 3, 128, None, b"", b"owner", -3904, random.Random(1201), id0=b"0123456789abcdef", id1=b"0123456789abcdef")
@@ -344,6 +362,17 @@ def split_text_pages(s: str) -> List[str]:
     return parts[:-1] if parts and parts[-1] == "" else parts
 
 
+def perturb_heap(rng: random.Random) -> None:
+    """Other work in the same process: allocate layout objects and free them in random order, so that the
+    allocator hands out addresses in an order unrelated to creation order afterwards."""
+    from pdfminer.layout import LTTextBoxHorizontal, LTTextLineHorizontal
+
+    objs: List[Any] = [LTTextBoxHorizontal() if i % 2 else LTTextLineHorizontal(0.1) for i in range(rng.randint(500, 4000))]
+    rng.shuffle(objs)
+    while objs:
+        objs.pop()
+
+
 def run_history(rec, pool, base, rng: random.Random, hid: str, shared: SharedState) -> List[Tuple[str, str]]:
     fails: List[Tuple[str, str]] = []
     ncalls = rng.randint(20, 60)
@@ -364,6 +393,9 @@ def run_history(rec, pool, base, rng: random.Random, hid: str, shared: SharedSta
         mode = rng.choice(["all", "all", "subset", "one_at_a_time"])
         rec.see("docs_used", d["name"])
         calls.append((d["name"], api, caching, mode))
+        if rng.random() < 0.5:
+            perturb_heap(rng)
+            rec.count("heap_perturbations")
         try:
             if mode == "all":
                 got = run_api(d["pdf"], api, d["password"], caching, None)
